@@ -435,6 +435,83 @@ BIG_MODEL_PARTS = {
         lambda t: chunks(_leaf_labels(t.fit(*_big_data())), 4))],
 }
 
+def _wide_data(d):
+    key = f"WD{d}"
+    if key not in _DATA:
+        rs = np.random.RandomState(100 + d)
+        X = rs.uniform(-1, 1, (300, d))
+        _DATA[key] = X / np.linalg.norm(X, axis=1).max()
+    return _DATA[key]
+
+
+def _cov_wide(d, **kw):
+    def run(rs):
+        from diffprivlib.models.utils import covariance_eig
+        r = covariance_eig(_wide_data(d), epsilon=5.0, norm=1.0, random_state=rs, **kw)
+        v = r if kw.get("eigvals_only") else r[0]
+        return cont(eigenvalues=np.asarray(v)[:: max(1, d // 8)])
+    return run
+
+
+# feature / target / class counts on both sides of the usual fast-path thresholds (64, 100, 128, 256): run directly only
+for _d in (65, 80, 128, 257):
+    _bw = (-np.ones(_d), np.ones(_d))
+    if _d > 65:       # one Bingham draw in >= 80 dimensions takes seconds; covariance_eig(eigvals_only) covers those sizes
+        BIG_MODEL_PARTS["StandardScaler"].append((f"big:{_d}-features", (lambda bw: lambda rs: MD.StandardScaler(
+            epsilon=50.0, bounds=bw, random_state=rs, accountant=acc()))(_bw),
+            (lambda d: lambda e: cont(mean=e.fit(_wide_data(d)).mean_[::max(1, d // 8)]))(_d)))
+        continue
+    BIG_MODEL_PARTS["PCA"].append((f"big:{_d}-features", (lambda d, bw: lambda rs: MD.PCA(
+        n_components=1, epsilon=5.0, centered=True, data_norm=1.0, random_state=rs, accountant=acc()))(_d, _bw),
+        (lambda d: lambda e: (lambda p_: cont(explained_variance=p_.explained_variance_, component=p_.components_[0][::max(1, d // 6)]))(
+            e.fit(_wide_data(d))))(_d)))
+    BIG_MODEL_PARTS["StandardScaler"].append((f"big:{_d}-features", (lambda bw: lambda rs: MD.StandardScaler(
+        epsilon=50.0, bounds=bw, random_state=rs, accountant=acc()))(_bw),
+        (lambda d: lambda e: cont(mean=e.fit(_wide_data(d)).mean_[::max(1, d // 8)]))(_d)))
+for _d in (65, 128):
+    _bw = (-np.ones(_d), np.ones(_d))
+    BIG_MODEL_PARTS["GaussianNB"].append((f"big:{_d}-features", (lambda bw: lambda rs: MD.GaussianNB(
+        epsilon=50.0, bounds=bw, random_state=rs, accountant=acc()))(_bw),
+        (lambda d: lambda e: cont(theta=e.fit(_wide_data(d), np.arange(300) % 3).theta_[:, ::max(1, d // 4)]))(_d)))
+    BIG_MODEL_PARTS["KMeans"].append((f"big:{_d}-features", (lambda bw: lambda rs: MD.KMeans(
+        n_clusters=2, epsilon=500.0, bounds=bw, random_state=rs, accountant=acc()))(_bw),
+        (lambda d: lambda e: cont(centers=e.fit(_wide_data(d)).cluster_centers_[:, ::max(1, d // 4)]))(_d)))
+    BIG_MODEL_PARTS["LogisticRegression"].append((f"big:{_d}-features", lambda rs: MD.LogisticRegression(
+        epsilon=20.0, data_norm=1.0, max_iter=10, random_state=rs, accountant=acc()),
+        (lambda d: lambda e: cont(coef=e.fit(_wide_data(d), np.arange(300) % 2).coef_[:, ::max(1, d // 4)]))(_d)))
+    BIG_MODEL_PARTS["DecisionTreeClassifier"].append((f"big:{_d}-features", (lambda bw: lambda rs: MD.DecisionTreeClassifier(
+        epsilon=0.05, bounds=bw, classes=[0, 1, 2, 3], max_depth=5, random_state=rs, accountant=acc()))(_bw),
+        (lambda d: lambda t: disc(labels=_leaf_labels(t.fit(_wide_data(d), np.arange(300) % 4))))(_d)))
+BIG_MODEL_PARTS["LinearRegression"].append(("big:65-features", lambda rs: MD.LinearRegression(
+    epsilon=2000.0, bounds_X=(-np.ones(65), np.ones(65)), bounds_y=(-1.0, 1.0), random_state=rs, accountant=acc()),
+    lambda e: cont(coef=e.fit(_wide_data(65), np.clip(_wide_data(65).sum(axis=1), -1, 1)).coef_[::8])))
+BIG_MODEL_PARTS["RandomForestClassifier"].append(("big:70-classes-130-trees", lambda rs: MD.RandomForestClassifier(
+    n_estimators=130, epsilon=5.0, bounds=B3, classes=list(range(70)), max_depth=2, random_state=rs, accountant=acc()),
+    lambda f: (lambda f_: chunks([x for t in f_.estimators_ for x in _leaf_labels(t)], 8))(
+        f.fit(data()["Xm"], np.arange(240) % 70))))
+BIG_MODEL_PARTS["KMeans"].append(("big:66-clusters", lambda rs: MD.KMeans(
+    n_clusters=66, epsilon=5000.0, bounds=B3, random_state=rs, accountant=acc()),
+    lambda e: cont(centers=e.fit(np.random.RandomState(5).uniform(-1, 1, (2000, 3))).cluster_centers_[::8, 0])))
+
+
+# multi-target / 2-D y wherever the API accepts it
+def _linreg_multi(k):
+    def out(m):
+        X = data()["Xm"]
+        Y = np.clip(X @ np.random.RandomState(k).uniform(-0.5, 0.5, (3, k)), -1, 1)
+        m.fit(X, Y)
+        oc = getattr(m, "_obj_coefs", None)
+        extra = {} if oc is None else {"obj_coef0": oc[0], "obj_coef1": oc[1]}
+        return cont(coef=m.coef_, intercept=m.intercept_, **extra)
+    return out
+
+
+for _k in (2, 3):
+    for _fi in (True, False):
+        BIG_MODEL_PARTS["LinearRegression"].append((f"big:{_k}-targets,fit_intercept={_fi}", (lambda k, fi: lambda rs: MD.LinearRegression(
+            epsilon=5.0, bounds_X=B3, bounds_y=(-np.ones(k), np.ones(k)), fit_intercept=fi, random_state=rs, accountant=acc()))(_k, _fi),
+            _linreg_multi(_k)))
+
 # continuation sequences: first(estimator) [batch 1] -> round trip -> second(estimator) [batch 2, whose outputs are read]
 SEQ_PARTS = {
     "StandardScaler": [("partial_fit", MODEL_PARTS["StandardScaler"][0][1], _scaler_partial, _scaler_partial)],
@@ -500,8 +577,11 @@ for _n, _vs in SEQ_PARTS.items():
 for _n, _vs in BIG_MODEL_PARTS.items():
     for _v, _mk, _out in _vs:
         MODELS[_n].append((_v, (lambda mk, out: (lambda rs: out(mk(rs))))(_mk, _out)))
-MODELS["covariance_eig"] = [("full", _cov)]
+MODELS["covariance_eig"] = [("full", _cov)] + [(f"big:{d}-features,eigvals_only", _cov_wide(d, eigvals_only=True))
+                                                 for d in (65, 80, 128, 257)] + \
+    [("big:80-features,dims=1", _cov_wide(80, dims=1))]
 # estimators that make no structural draw: their unseeded fit must leave the global generators untouched as well
+SLOW_VARIANTS = {("PCA", "big:65-features"), ("covariance_eig", "big:80-features,dims=1"), ("KMeans", "big:66-clusters")}
 NO_STRUCTURAL = {"GaussianNB", "StandardScaler", "LinearRegression", "LogisticRegression", "PCA", "covariance_eig"}
 
 
@@ -786,9 +866,11 @@ def correspondence(ctx):
                 return "randomState" if (k == "globalSingleton" and ("|clone" in v or "|deepcopy" in v)) else k
             want_all, seen_all = set(), set()
             for (_, v, runner, group) in variants:
-                if ("|seq:" in v or v.startswith("big:")) and k not in ("none", "int"):
+                if "|seq:" in v and k not in ("none", "int"):
                     continue
-                if v.startswith("degenerate:") and k != "none":
+                if v.startswith("big:") and k not in (("none",) if (ctx.tier == "quick" and ctx.scale == 1) else ("none", "int")):
+                    continue
+                if (v.startswith("degenerate:") or (n, v) in SLOW_VARIANTS) and k != "none":
                     continue
                 want = model_sites(plan[(n, kind_for(v))])
                 want_err = bool(want) and all(w.endswith(":error") for w in want)
@@ -1024,7 +1106,9 @@ def blackbox(ctx):
     try:
         for (entry, variant, runner, group) in all_entries():
             deg = variant.startswith("degenerate:")
-            for s in (seeds[:1] if deg else seeds[:2] if variant.startswith("big:") else seeds):
+            slow = (entry, variant) in SLOW_VARIANTS
+            nbig = 1 if ctx.tier == "quick" and ctx.scale == 1 else 2
+            for s in (seeds[:1] if (deg or slow) else seeds[:nbig] if variant.startswith("big:") else seeds):
                 fails, n, crash = blackbox_one(entry, variant, runner, group, s)
                 if deg and crash:
                     crash = None          # degenerate data: a call that raises is a refusal, nothing was released
